@@ -37,7 +37,7 @@ func (r *Rng) Intn(n int) int {
 	}
 	return int(r.Uint64() % uint64(n))
 }
-func (r *Rng) Float() float64 { return float64(r.Uint64()>>11) / float64(1<<53) }
+func (r *Rng) Float() float64   { return float64(r.Uint64()>>11) / float64(1<<53) }
 func (r *Rng) P(p float64) bool { return r.Float() < p }
 func (r *Rng) Range(lo, hi int) int {
 	if hi <= lo {
